@@ -631,3 +631,54 @@ def sentinel_loops(fnode):
             if isinstance(st, ast.While) and isinstance(st.test, ast.NamedExpr) and isinstance(st.test.value, ast.Call):
                 out.append(SentinelLoop(st, st.test.target.id, st.test.value, st.body, 'falsy'))
     return out
+
+
+# ---------------------------------------------------------------------------------------------
+# small canonicalisations
+
+def unroll_const_loops(fnode, consts=None, limit=8):
+    """`for x in (c1, c2, ...): BODY` over a literal tuple/list of constants (no break/continue/else) becomes
+    BODY[x:=c1]; BODY[x:=c2]; ...   and   getattr(obj, 'name')  becomes  obj.name"""
+    fn = clone(fnode)
+
+    class G(ast.NodeTransformer):
+        def visit_Call(self, c):
+            self.generic_visit(c)
+            if isinstance(c.func, ast.Name) and c.func.id == 'getattr' and len(c.args) == 2 and not c.keywords \
+                    and isinstance(c.args[1], ast.Constant) and isinstance(c.args[1].value, str) and c.args[1].value.isidentifier():
+                return ast.copy_location(ast.Attribute(value=c.args[0], attr=c.args[1].value, ctx=ast.Load()), c)
+            return c
+
+    def items_of(it):
+        if isinstance(it, (ast.Tuple, ast.List)) and all(isinstance(e, ast.Constant) for e in it.elts) and len(it.elts) <= limit:
+            return [e for e in it.elts]
+        if consts is not None and isinstance(it, (ast.Name, ast.Attribute)):
+            v = consts(norm(it))
+            if v is not None and isinstance(v[0], (tuple, list)) and len(v[0]) <= limit and all(isinstance(x, (str, int, bytes)) for x in v[0]):
+                return [ast.Constant(value=x) for x in v[0]]
+        return None
+
+    def rewrite(body):
+        out = []
+        for st in body:
+            for fld in ('body', 'orelse', 'finalbody'):
+                if isinstance(getattr(st, fld, None), list) and not isinstance(st, (ast.FunctionDef, ast.ClassDef)):
+                    setattr(st, fld, rewrite(getattr(st, fld)))
+            for h in getattr(st, 'handlers', []) or []:
+                h.body = rewrite(h.body)
+            if isinstance(st, ast.For) and isinstance(st.target, ast.Name) and not st.orelse:
+                items = items_of(st.iter)
+                jumps = any(isinstance(n, (ast.Break, ast.Continue)) for n in walk_no_nested(st))
+                stores = any(isinstance(n, ast.Name) and n.id == st.target.id and isinstance(n.ctx, ast.Store) for b in st.body for n in ast.walk(b))
+                if items is not None and not jumps and not stores:
+                    for c in items:
+                        for b in st.body:
+                            nb = _Rename({}, {st.target.id: c}).visit(clone(b))
+                            out.append(G().visit(nb))
+                    continue
+            out.append(st)
+        return out
+    fn.body = rewrite(fn.body)
+    fn = G().visit(fn)
+    ast.fix_missing_locations(fn)
+    return fn
